@@ -250,9 +250,9 @@ def spec_configs(tier: str) -> List[Any]:
         keep = []
         for c in cfgs:
             if getattr(c, "grammar", None) is not None:
-                if c.db == "Forest":
+                if c.db in ("RuleDB", "Forest"):
                     keep.append(c)
-            elif c.pack in ("base", "norm+sym", "inf2", "rfac", "rfswap", "norm+atomlast", "oneway+inf1") and c.db in ("RuleDB", "Forest"):
+            elif c.db in ("RuleDB", "Forest"):
                 keep.append(c)
         cfgs = keep
     else:
